@@ -61,7 +61,7 @@ NSCENE = {"quick": {"contain2d": (60, 500), "heading": (60, 500), "contain3d": (
 FINDINGS = {  # stable keys; attributed only by the matchers in `attribute`
     "z": "pruned-polygon-loses-z", "soft": "non-hard-requirement-used-for-pruning", "loop": "containment-erosion-retry-loop",
     "offset": "containment-intersects-base-although-offset-exceeds-inradius", "wrap": "relative-heading-range-not-normalised",
-    "clip": "voxel-dilation-clipped-to-grid",
+    "clip": "voxel-dilation-clipped-to-grid", "gon": "pruned-circle-is-inscribed-polygon",
     "cansee": "cansee-point-rotated-before-translated",
 }
 
@@ -374,6 +374,21 @@ def rh_causes(P, s, point):
     return "+".join(keys) or None
 
 
+def circle_sliver(s, p, d, margin, how, resolution=32):
+    """Bug model of 'pruned-circle-is-inscribed-polygon'.  A CircularRegion is sampled exactly (polar coordinates), but every
+    polygon operation pruning applies to it uses its `polygons`, the regular 4*resolution-gon inscribed in the circle.  True iff
+    p was drawn in the true disc of such a base, within the sagitta r(1-cos(pi/(4*resolution))) (+1e-6) of its arc, outside the
+    inscribed polygon by d_gon > 0, and the pruned region excludes p by exactly d_gon (within the usual margin): the nearest
+    admissible point is on the chord, so no other constraint of the pruned region is what excludes p."""
+    b = s.base
+    if not (how == "polygon" and isinstance(b, rr.DiscRef) and b.ang is None):
+        return False
+    step, rho = math.tau / (4 * resolution), math.hypot(p[0] - b.c[0], p[1] - b.c[1])
+    rel = math.atan2(p[1] - b.c[1], p[0] - b.c[0]) % step - step / 2  # angle from the middle of the chord p is behind (a vertex is at angle 0)
+    d_gon = rho * math.cos(rel) - b.r * math.cos(step / 2)
+    return rho <= b.r + b.tol and b.r - rho <= b.r * (1 - math.cos(step / 2)) + 1e-6 and d_gon > 0 and abs(d - d_gon) <= margin + 1e-9
+
+
 def attribute(P, clause, info, probe):
     stages, i = probe.get("stages", {}), info.get("object")
     s = P.objs[i] if i is not None else None
@@ -385,6 +400,8 @@ def attribute(P, clause, info, probe):
         if "pruneRelativeHeading" in info["where"] and P.cells:
             return rh_causes(P, None, None)
     if clause == "feasible-position-pruned-away" and s is not None:
+        if info.get("only_explained_by_inscribed_polygon_of_circle"):
+            return FINDINGS["gon"]  # CircularRegion.polygons (buffer with quad_segs=resolution) stands for the exactly sampled disc
         if i in stages.get("pruneRelativeHeading", []) and info.get("how") == "polygon" and P.cells:
             return rh_causes(P, s, info["point"])
         box = [b for b in probe.get("clipped", []) if any(abs(info["point"][k] - (b[0][k] + b[1][k]) / 2) > (b[1][k] - b[0][k]) / 2 for k in range(2 if flat(s.base) else 3))]
@@ -516,10 +533,13 @@ def run(tape):
                 break
             judged += 1
             d, margin, how = res
-            if d > margin and (worst is None or d > worst["outside_by"]):
+            gon = d > margin and circle_sliver(P.objs[i], p, d, margin, how)
+            stats["positions-in-circle-slivers"] = stats.get("positions-in-circle-slivers", 0) + int(gon)
+            # report the largest loss that the inscribed polygon of a circular base does not explain; such a sliver only if there is nothing else
+            if d > margin and (worst is None or (gon, -d) < (worst["only_explained_by_inscribed_polygon_of_circle"], -worst["outside_by"])):
                 worst = {"object": i, "scene_index": k, "point": p.tolist(), "position": ob[i]["pos"].tolist(), "outside_by": d, "margin": margin,
                          "how": how, "pruned_region": repr(creg)[:160], "region_depends_on_other_objects": random_region,
-                         "pruned_measure": measure(creg), "original_measure": measure(region_of(orig))}
+                         "pruned_measure": measure(creg), "original_measure": measure(region_of(orig)), "only_explained_by_inscribed_polygon_of_circle": gon}
                 src = "ego" if P.objs[i].require_visible else P.objs[i].visible_from
                 if src is not None:  # (as canSee's point branch computes it, as documented) for the object's centre
                     worst["centre_in_view_cone_as_computed_and_as_documented"] = centre_seen(ob[[o.name for o in P.objs].index(src)], ob[i]["pos"])
